@@ -66,6 +66,24 @@ class MediaList(cssutils.util._NewListBase):
             if item.type == 'MediaQuery':
                 yield item
 
+    def _seqindex(self, index):
+        """Position in the sequence (which may hold comments too) of the
+        `index`'th medium."""
+        positions = [
+            i for i, item in enumerate(self._seq) if item.type == 'MediaQuery'
+        ]
+        return positions[index]
+
+    def __len__(self):
+        return sum(1 for _ in self)
+
+    def __getitem__(self, index):
+        return self._seq[self._seqindex(index)].value
+
+    def __delitem__(self, index):
+        self._checkReadonly()
+        del self._seq[self._seqindex(index)]
+
     length = property(
         lambda self: len(list(self)),
         doc="The number of media in the list (DOM readonly).",
@@ -175,7 +193,7 @@ class MediaList(cssutils.util._NewListBase):
         # TODO: remove duplicates?
         newMedium = self.__prepareset(newMedium)
         if newMedium:
-            self._seq[index] = (newMedium, 'MediaQuery', None, None)
+            self._seq[self._seqindex(index)] = (newMedium, 'MediaQuery', None, None)
 
     def appendMedium(self, newMedium):
         """Add the `newMedium` to the end of the list.
@@ -249,7 +267,7 @@ class MediaList(cssutils.util._NewListBase):
 
         for i, mq in enumerate(self._seq):
             if mq.type == 'MediaQuery' and normalize(mq.value.mediaType) == oldMedium:
-                del self[i]
+                del self._seq[i]
                 break
         else:
             self._log.error(
